@@ -9,10 +9,6 @@ sys.path.insert(0, os.path.dirname(os.path.abspath(__file__)))
 import plan_gen  # noqa: E402
 
 ALL_RPS = {(x, y, z) for x in range(3) for y in range(3) for z in range(3) if x + y + z <= 3}
-# isGoodMove's rack arithmetic is only sound when the racks of the main data center cannot be
-# traded against racks of another data center: x = 0 or y <= 1 (see C15-rack-split)
-SOUND_MOVE_RPS = {rp for rp in ALL_RPS if rp[0] == 0 or rp[1] <= 1}
-
 # generator / model-checking topologies: id, dc, rack, has ssd
 TOPO_THM = [("a1", "d1", "r1", False), ("a2", "d1", "r1", False), ("a3", "d1", "r2", False), ("a4", "d1", "r3", False),
             ("b1", "d2", "r1", False), ("b2", "d2", "r1", False), ("b3", "d2", "r2", False), ("c1", "d3", "r1", False)]
@@ -57,20 +53,24 @@ def run(ctx):
     #     satisfyReplicaPlacement, transcribed) imply the property's clauses, for every replica set
     #     of <= 4 servers over 3 data centers / 6 racks / 8 servers
     thm = ctx.instance("MC_PlanThm", "PlanCheck",
-                       "SPECIFICATION Spec\nINVARIANT ThmCompat\nINVARIANT ThmSatisfyImpl\nCHECK_DEADLOCK FALSE",
-                       consts(TOPO_THM, ALL_RPS))
-    ctx.model_check(thm, workers=4, label="placement theorems, all xyz with x+y+z<=3")
-    thm2 = ctx.instance("MC_PlanGoodMove", "PlanCheck", "SPECIFICATION Spec\nINVARIANT ThmGoodMove\nCHECK_DEADLOCK FALSE",
-                        consts(TOPO_THM, SOUND_MOVE_RPS))
-    ctx.model_check(thm2, workers=4, label="isGoodMove implies nodup+sat for x=0 or y<=1")
+                       "SPECIFICATION Spec\nINVARIANT ThmCompat\nINVARIANT ThmSatisfyImpl\nINVARIANT ThmGoodMove\n"
+                       "CHECK_DEADLOCK FALSE", consts(TOPO_THM, ALL_RPS))
+    ctx.model_check(thm, workers=4, label="placement theorems, all xyz with x+y+z<=3 (isGoodMove: x=0 or y<=1)")
+    if ctx.thorough:
+        # the design-level counterexample behind known finding C15-rack-split (reproduced on the real planner)
+        bad = ctx.instance("MC_PlanGoodMoveAll", "PlanCheck", "SPECIFICATION Spec\nINVARIANT ThmGoodMoveAll\nCHECK_DEADLOCK FALSE",
+                           consts(TOPO_THM, ALL_RPS))
+        ctx.model_check(bad, workers=4, expect_violation="ThmGoodMoveAll",
+                        label="isGoodMove for ALL xyz: expected counterexample (120)")
     # 1b. every plan of allowed steps keeps the design invariants
     mc = ctx.instance("MC_Plan15", "PlanCheck",
                       "SPECIFICATION Spec\nINVARIANT NoDup\nINVARIANT CapInv\nPROPERTY SatKept\nPROPERTY RepairKept\n"
-                      "CHECK_DEADLOCK FALSE",
-                      consts(TOPO_MC, {(0, 0, 0), (0, 0, 1), (0, 1, 0), (1, 0, 0), (1, 1, 0)} if ctx.thorough
+                      "VIEW MCView\nCHECK_DEADLOCK FALSE",
+                      consts(TOPO_MC, {(0, 0, 1), (0, 1, 0), (1, 0, 0), (1, 1, 0)} if ctx.thorough
                              else {(0, 0, 1), (0, 1, 0), (1, 0, 0)},
-                             maxvols=2 if ctx.thorough else 1, maxsteps=2, slacks=(0, 1)))
-    ctx.model_check(mc, workers=4, timeout=1500, label="all plans of 2 allowed steps over all small snapshots")
+                             maxvols=2 if ctx.thorough else 1, maxsteps=1 if ctx.thorough else 2, slacks=(0, 1)))
+    ctx.model_check(mc, workers=4, timeout=1500,
+                    label="all plans of allowed steps (2 steps on 1-volume snapshots; thorough: 1 step on 2-volume snapshots)")
 
     # 2. generators -------------------------------------------------------------------------
     rng = random.Random(ctx.seed)
@@ -89,7 +89,7 @@ def run(ctx):
         for h in h1:
             resets += executions(rng, snapshot_from_hist(h, TOPO_MC))
         # G3: TLC-sampled snapshots, 2 dc x 2 racks x 2(-3) servers, 4 volumes, tight capacities
-        for name, topo, n in (("G3_Plan15", TOPO_GEN, 1500 if ctx.thorough else 40),
+        for name, topo, n in (("G3_Plan15", TOPO_GEN, 1500 if ctx.thorough else 30),
                               ("G3_Plan15b", TOPO_GEN3, 1500 if ctx.thorough else 0)):
             if n == 0:
                 continue
